@@ -44,6 +44,32 @@ def verify(sdir):
         shutil.rmtree(wt, ignore_errors=True)
     return res
 
+def run_checks_scratch(sdir, props):
+    """Like run_checks, but against a scratch worktree (CBVERIF_REPO) so that /repo stays untouched."""
+    wt = "/tmp/seedscratch/wt"
+    sh(["git", "-C", "/repo", "worktree", "remove", "--force", wt])
+    shutil.rmtree(wt, ignore_errors=True)
+    os.makedirs("/tmp/seedscratch", exist_ok=True)
+    rc, out = sh(["git", "-C", "/repo", "worktree", "add", "--detach", wt, "HEAD"])
+    assert rc == 0, out
+    rc, out = sh(["git", "apply", os.path.join(sdir, "patch.diff")], cwd=wt)
+    assert rc == 0, out
+    results = {}
+    env = dict(ENV, CBVERIF_REPO=wt)
+    try:
+        for p in props:
+            t0 = time.time()
+            pr = subprocess.run([os.path.join(ROOT, "check"), p, "--tier", "quick"], cwd=ROOT, env=env, stdout=subprocess.PIPE, stderr=subprocess.STDOUT, text=True, timeout=3600)
+            out = pr.stdout
+            viol = [l for l in out.splitlines() if l.startswith("VIOLATION")]
+            tail = [l for l in out.splitlines() if l.strip()][-4:]
+            results[p] = {"exit": pr.returncode, "violation": bool(viol), "seconds": round(time.time() - t0, 1), "output_tail": tail, "scratch_worktree": True}
+            print(f"   {p}: exit {pr.returncode} {'VIOLATION' if viol else ''} ({time.time()-t0:.0f}s) {tail[-2] if len(tail) > 1 else ''}"[:260], flush=True)
+    finally:
+        sh(["git", "-C", "/repo", "worktree", "remove", "--force", wt])
+        shutil.rmtree(wt, ignore_errors=True)
+    return results
+
 def run_checks(sdir, props):
     st = subprocess.run(["git", "-C", "/repo", "status", "--porcelain", "--untracked-files=no"], stdout=subprocess.PIPE, text=True).stdout.strip()
     assert st == "", "/repo working tree is not clean: " + st
@@ -65,7 +91,7 @@ def run_checks(sdir, props):
 def main():
     sdir = os.path.abspath(sys.argv[1])
     breaks = sys.argv[2]
-    props = ALL if (len(sys.argv) < 4 or sys.argv[3] == "all") else sys.argv[3].split(",")
+    props = ALL if (len(sys.argv) < 4 or sys.argv[3] == "all" or sys.argv[3].startswith("--")) else sys.argv[3].split(",")
     meta_path = os.path.join(sdir, "meta.json")
     meta = json.load(open(meta_path)) if os.path.exists(meta_path) else {}
     meta["breaks_property"] = breaks
@@ -73,7 +99,7 @@ def main():
     if "--skip-verify" not in sys.argv:
         meta["confirmation"] = verify(sdir)
         print("   confirmation:", meta["confirmation"], flush=True)
-    meta.setdefault("checks", {}).update(run_checks(sdir, props))
+    meta.setdefault("checks", {}).update(run_checks_scratch(sdir, props) if "--scratch" in sys.argv else run_checks(sdir, props))
     meta["caught_by"] = sorted(p for p, r in meta["checks"].items() if r["violation"])
     meta["repo_commit"] = subprocess.run(["git", "-C", "/repo", "rev-parse", "--short", "HEAD"], stdout=subprocess.PIPE, text=True).stdout.strip()
     json.dump(meta, open(meta_path, "w"), indent=1)
